@@ -954,6 +954,20 @@ func (l *Lowerer) lowerGlobalVar(v *parser.VarDecl) error {
 				initExpr = &h
 			}
 		}
+		if un, ok := v.Init.(*parser.UnaryExpr); ok && initExpr == nil {
+			// A unary operator applied to a literal (e.g. -1, -0.5, !true, ~0u) is still a
+			// scalar constant: evaluate it and store it like a literal init.
+			if scalarKind, bits, unErr := l.evalConstUnaryExpr(un); unErr == nil {
+				scalarKind, bits = l.coerceScalarToType(scalarKind, bits, typeHandle)
+				sv := ir.ScalarValue{Bits: bits, Kind: scalarKind}
+				litVal := l.scalarValueToLiteralWithType(sv, typeHandle)
+				h := ir.ExpressionHandle(len(l.module.GlobalExpressions))
+				l.module.GlobalExpressions = append(l.module.GlobalExpressions, ir.Expression{
+					Kind: ir.Literal{Value: litVal},
+				})
+				initExpr = &h
+			}
+		}
 		if initExpr == nil {
 			// Fallback: try as constant (for non-literal inits)
 			constHandle, initErr := l.lowerGlobalVarInit(v.Name, typeHandle, v.Init)
